@@ -146,7 +146,7 @@ CASES = [
     dict(id="c12-raw-routing-attr", prop="C12", kind="mutant", file=S + "_shared_macros.j2",
          old="        if request.{{ routing_param.disambiguated_field }}:", new="        if request.{{ routing_param.field }}:"),
     dict(id="c12-double-underscore", prop="C12", kind="mutant", file="schema/wrappers.py",
-         old='        return self.raw + "_" if self.raw in utils.RESERVED_NAMES else self.raw', new='        return self.raw + "__" if self.raw in utils.RESERVED_NAMES else self.raw'),
+         old='            segment + "_" if segment in utils.RESERVED_NAMES else segment\n            for segment in self.raw.split(".")', new='            segment + "__" if segment in utils.RESERVED_NAMES else segment\n            for segment in self.raw.split(".")'),
     # ---------------- C14
     dict(id="c14-marker", prop="C14", kind="mutant", file="templates/examples/feature_fragments.j2",
          old="# Make the request\n{% if calling_form in", new="# Make the call\n{% if calling_form in"),
@@ -313,4 +313,13 @@ CASES = [
     dict(id="c14-new-root-package-selector", prop="C14", kind="mutant", file="samplegen/samplegen.py",
          old='    service = api_schema.services[sample["service"]]\n    method = service.methods[sample["rpc"]]\n    async_ =',
          new='    service = api_schema.services[f"{api_schema.naming.proto_package}.{sample[\'service\'].rsplit(\'.\', 1)[-1]}"]\n    method = service.methods[sample["rpc"]]\n    async_ ='),
+    dict(id="twin-routing-delegates-to-fieldheader", prop="*", kind="twin", file="schema/wrappers.py",
+         old='        return ".".join(\n            segment + "_" if segment in utils.RESERVED_NAMES else segment\n            for segment in self.field.split(".")\n        )',
+         new='        return FieldHeader(self.field).disambiguated'),
+    dict(id="c12-fieldheader-whole-string", prop="C12", kind="mutant", also=["C06"], file="schema/wrappers.py",
+         old='        return ".".join(\n            segment + "_" if segment in utils.RESERVED_NAMES else segment\n            for segment in self.raw.split(".")\n        )',
+         new='        return self.raw + "_" if self.raw in utils.RESERVED_NAMES else self.raw'),
+    dict(id="twin-formatter-precompiled-patterns", prop="*", kind="twin", file="generator/formatter.py",
+         edits=[('def fix_whitespace(code: str) -> str:', '_TRAILING = re.compile(r"[ ]+\\n")\n\n\ndef fix_whitespace(code: str) -> str:'),
+                ('    code = re.sub(r"[ ]+\\n", "\\n", code)', '    code = _TRAILING.sub("\\n", code)')]),
 ]
